@@ -202,11 +202,39 @@ def run_schedule(progs, schedule, repo, timeout=20.0):
 def h_threads(ctx, a, b):
     progs = [_prog(a), _prog(b)]
     if not ctx.symbolic:
-        # concrete replay: solo outcomes first (sequentially), then the recorded schedule with real threads
-        solo = [_attempt(progs[0]), _attempt(progs[1])]
+        # concrete replay: the recorded schedule with real threads runs first, in a forked child, from the cold state
+        # of a fresh process (lazily filled caches are part of what may race); the solo outcomes are computed
+        # afterwards in the parent
         repo = os.environ.get("VERIF_REPO", "/repo")
-        got, dead = run_schedule(progs, ctx.inputs["schedule"], repo)
-        ctx.check(LABEL, got == solo and not dead, "solo=%r interleaved=%r" % (solo, got))
+        import multiprocessing as mp
+        mpc = mp.get_context("fork")
+        rx, tx = mpc.Pipe(duplex=False)
+
+        def child():
+            try:
+                tx.send(run_schedule(progs, ctx.inputs["schedule"], repo))
+            finally:
+                os._exit(0)
+        p = mpc.Process(target=child)
+        p.start()
+        tx.close()
+        got, dead = rx.recv() if rx.poll(120) else (None, True)
+        p.join(5)
+        solos = []
+        for i in (0, 1):  # each solo outcome from a cold state as well
+            rx2, tx2 = mpc.Pipe(duplex=False)
+
+            def solo_child(i=i, tx2=tx2):
+                try:
+                    tx2.send(_attempt(progs[i]))
+                finally:
+                    os._exit(0)
+            q = mpc.Process(target=solo_child)
+            q.start()
+            tx2.close()
+            solos.append(rx2.recv() if rx2.poll(60) else None)
+            q.join(5)
+        ctx.check(LABEL, got == solos and not dead, "solo=%r interleaved=%r" % (solos, got))
         return
     from symx import loader, trace
     if not loader.TRACE:
@@ -218,8 +246,16 @@ def h_threads(ctx, a, b):
     from symx import explore as _ex
     saved, _ex._CUR = _ex._CUR, None   # the thread programs are concrete: run them outside symbolic mode
     try:
-        _attempt(progs[0]), _attempt(progs[1])      # warm-up: imports, lazily created state
+        # warm-up (imports) is traced too and undone afterwards, so that every run below starts from the same cold
+        # state: lazily filled caches and memo tables are shared memory that can race
         tr = trace.Tracer(trace.shared_ids())
+        trace.TR = tr
+        try:
+            _attempt(progs[0]), _attempt(progs[1])
+        finally:
+            trace.TR = None
+        trace.restore(tr)
+        tr.shared |= trace.shared_ids()
         solo, steps = [], []
         for i in (0, 1):
             tr.events = {}
